@@ -919,6 +919,7 @@ class Splicer:
         self.baseline_out = None
         self._fq_seen = {}
         self._helpers = {}
+        self._shift_consts = {}
         self.packed = []
         self.enums = []
         self.all_enums = []   # every fieldless enum: [(variant, discriminant)] (explicit or positional)
@@ -1013,6 +1014,20 @@ class Splicer:
                     _collect(x.children, x.name)
         _collect(items, None)
         self._helpers[mod] = {n: h for n, h in hs.items() if h is not None}
+        # named bits: `const X: uN = 1 << K;` -- every body that mentions X gets the (ghost) fact
+        # `1uN << K == 2^K`, proved by Verus's bit-vector mode, so that a named bit is not opaque
+        sc = {}
+
+        def _consts(its):
+            for x in its:
+                if x.kind == 'const' and x.head:
+                    cm = re.match(r'\s*(?:pub(?:\s*\([^)]*\))?\s+)?const\s+([A-Z_][A-Z0-9_]*)\s*:\s*(u8|u16|u32|u64|usize)\s*=\s*\(?\s*1\s*<<\s*(\d+)\s*\)?\s*;?\s*$', ' '.join(x.head.split()))
+                    if cm and int(cm.group(3)) < {'u8': 8, 'u16': 16, 'u32': 32, 'u64': 64, 'usize': 64}[cm.group(2)]:
+                        sc[cm.group(1)] = (cm.group(2), int(cm.group(3)))
+                elif x.kind == 'impl' and x.children:
+                    _consts(x.children)
+        _consts(items)
+        self._shift_consts[mod] = sc
         root = (mod == 'lib')
         if not root:
             out.emit('pub mod %s {' % mod)
@@ -1389,6 +1404,10 @@ class Splicer:
         top = []
         if mut_self:
             top.append('let mut __self = self;')
+        for cn, (ct, ck) in sorted(self._shift_consts.get(fq.split('::')[0], {}).items()):
+            if re.search(r'\b%s\b' % cn, body):
+                top.append('proof { assert(1%s << %d == %d%s) by (bit_vector); }' % (ct, ck, 1 << ck, ct))
+                out.count('proof aid: value of a named bit (`const X = 1 << K`) stated where X is used')
         if bc:
             top.append('broadcast use {%s};' % bc)
         top.extend(spec.top)
